@@ -633,3 +633,52 @@ fn recv_headers_activation(pushed: bool) {
 }
 pub fn c05_recv_headers_request() { recv_headers_activation(false) }
 pub fn c05_recv_headers_pushed_response() { recv_headers_activation(true) }
+
+/// C13.trl: trailers.  Reference (RFC 9113 §8.1): pseudo-header fields must not appear in
+/// a trailer section (malformed); a trailer section ends the stream; a body shorter than
+/// its content-length is an error, not a clean end.
+pub fn c13_trl_recv_trailers() {
+    let mut w = rworld(3, true);
+    let has_status: bool = kani::any();
+    let has_method: bool = kani::any();
+    let mut pseudo = frame::Pseudo::default();
+    if has_status {
+        pseudo.status = Some(http::StatusCode::OK);
+    }
+    if has_method {
+        pseudo.method = Some(http::Method::GET);
+    }
+    let mut h = frame::Headers::new(StreamId::from(ID), pseudo, HeaderMap::new());
+    h.set_end_stream();
+    let declared: bool = kani::any();
+    let remaining: u64 = kani::any();
+    {
+        let mut p = w.store.resolve(w.key);
+        if declared {
+            p.content_length = stream::ContentLength::Remaining(remaining);
+        }
+    }
+    let r = {
+        let mut p = w.store.resolve(w.key);
+        w.recv.recv_trailers(h, &mut p)
+    };
+    let p = w.store.resolve(w.key);
+    match &r {
+        Ok(()) => {
+            assert!(!(declared && remaining != 0), "C13.len: trailers accepted although the body is shorter than content-length");
+            assert!(!(has_status || has_method), "C13.trl R-no-pseudo-in-trailers: trailers carrying pseudo-header fields delivered");
+            assert!(p.state.is_recv_end_stream(), "trailers must end the receive half");
+            assert!(!p.pending_recv.is_empty());
+        }
+        Err(e) => {
+            assert!((declared && remaining != 0) || has_status || has_method, "well-formed trailers rejected");
+            assert!(matches!(e, Error::Reset(_, Reason::PROTOCOL_ERROR, Initiator::Library)), "malformed trailers are a stream error PROTOCOL_ERROR");
+            assert!(p.pending_recv.is_empty(), "malformed trailers were queued for the application");
+        }
+    }
+    kani::cover!(r.is_ok(), "delivered");
+    kani::cover!(r.is_err(), "rejected");
+    kani::cover!(true, "end");
+    std::mem::forget(r);
+    rforget(w);
+}
